@@ -107,6 +107,17 @@ func fixedSal(n int) []int64 {
 	return s
 }
 
+// rulesTextRetFail: every rule ends with "return one / z<i>" at top level, so it
+// fails through its return expression iff z<i> is zero.
+func rulesTextRetFail(n int, sal []int64) string {
+	t := ""
+	for i := 0; i < n; i++ {
+		k := strconv.Itoa(i)
+		t += "rule \"r" + k + "\" salience " + vnd.SalText(sal[i]) + "\nbegin\n ev(\"r" + k + ".s\")\n return one / z" + k + "\nend\n"
+	}
+	return t
+}
+
 // newDC returns a data context with the event hook, the fault operands and
 // the fail flags injected.
 func newDC(f []bool) *context.DataContext {
@@ -446,8 +457,13 @@ func checkStops(ord []int, total int, t, f []bool, b bool, err error) {
 
 // checkSortedTag: sort model over the candidates with a stop tag.
 func checkSortedTag(tr []string, n int, cand []bool, s []int64, t, f []bool, b bool, err error) {
-	ord := startOrder(tr, n)
 	checkOneAtATime(tr, n, f)
+	checkSortedStarts(tr, n, cand, s, t, f, b, err)
+}
+
+// checkSortedStarts is checkSortedTag on start events only.
+func checkSortedStarts(tr []string, n int, cand []bool, s []int64, t, f []bool, b bool, err error) {
+	ord := startOrder(tr, n)
 	total := 0
 	for i := 0; i < n; i++ {
 		if cand[i] {
